@@ -106,3 +106,23 @@ def c02_symbolic_bounds_no_usable_side(v):
     return (r.get('clause', '').startswith('c02:SetStrictRanges raised while building the bounds constraint')
             and r.get('error') == 'ZeroDivisionError' and r.get('in_symbolic') is True and r.get('usable_sides') == 0
             and (r.get('mode') or [None])[0] is True and (r.get('mode') or [None, None])[1] is None)
+
+
+@predicate
+def c06_deepcopy_live_detached(v):
+    r = v['record']
+    c = r.get('clause', '')
+    if r.get('how') != 'deepcopy' or not r.get('live_at_copy'):
+        return False
+    if c.startswith('indep:the copy keeps counting its own evaluations'):
+        return r.get('counted') == 0 and (r.get('real') or 0) > 0
+    if c.startswith("indep:the copy's evaluation monitor keeps recording"):
+        return r.get('recorded') == 0 and (r.get('real') or 0) > 0
+    return False
+
+
+@predicate
+def c07_tight_ranges_consume_rng(v):
+    r = v['record']
+    return (r.get('clause', '').startswith('perm:same trajectory') and r.get('tight') is True and r.get('ranges_before_init') is True
+            and r.get('random_init') is True and r.get('first_differing_step') == 0 and r.get('field') == 'pop')
